@@ -5,19 +5,20 @@ from vlib import zlist
 
 PROPS = ["C20/Props.v", "C20/GenProps.v"]
 META = dict(
-    text="Rocq theorems over an executable line-by-line model of pkg/obifp: every shift count, add/sub/mul/div/cmp of the three widths exact and overflow-exact for all operands (Uint128.Mul: partial, see known finding; Uint128.QuoRem included). The model is tied to the code twice on every run: (1) correspondence - the model is evaluated with vm_compute on the same boundary-biased operand cases the real methods ran on; (2) translation - tools/go2coq_obifp.go (go/parser + go/ast) re-translates uint64.go / uint128.go / uint256.go of the current working tree into Gallina (C20/Gen/Translated.v, 84 methods, none untranslated) and C20/GenProps.v re-proves, for every translated method, T_f = model f (84 theorems) plus the C20 theorems restated for the translated functions (8 theorems for the widest operation of each kind, 32 corollaries); a source change that alters a translated function breaks its equality theorem, the check then searches the ops of that method first and reports the failing input, or no-failing-input-found naming the theorem.",
-    note="Trusted: Coq kernel + vm_compute; math/bits primitives modelled by their documented meaning; harness/generators; the translator tools/go2coq_obifp.go (its reading of Go: uint = 64 bits, wraps written out as mod W / wrapi, log.Warnf ignored, log.Panicf = Panic, array index out of range = Panic, loop fuel from its table: shifts 4, Div 257/257, counting loops bound+1) - cross-checked by the unchanged correspondence run on the real code. Translated AND proved equal to the model (all 84 methods of the three files): Uint64 {Zero MaxValue IsZero Uint64 Uint128 Uint256 Set64 LeftShift64 RightShift64 Add64 Sub64 Mul64 LeftShift RightShift Add Sub Mul Cmp Equals LessThan GreaterThan LessThanOrEqual GreaterThanOrEqual And Or Xor Not AsUint64}, Uint128 {the same conversions/bitwise/comparisons, LeftShift RightShift Add Add64 Sub Mul Mul64 QuoRem QuoRem64 Div Div64 Mod Mod64 Cmp Cmp64}, Uint256 {the same conversions/bitwise/comparisons, LeftShift RightShift (whole-limb loop, by induction on fuel) Cmp Add Sub Mul (two counting loops over limb arrays, by symbolic execution in lock step with mul_rows) Div (two loops, by induction on fuel)}. Hypotheses of the equalities: shift counts 0 <= n < 2^64; QuoRem/Div/Mod of Uint128, Div and Mul of Uint256 need well-formed limbs (the written-out wraps are shown not to wrap). Hand-modelled only (no Go source in these three files): the pre-repair *_orig functions of the refuted theorems; the generic constructors of unint.go (ZeroUint/OneUint/From64: not modelled). Proved for all operands: shifts (every count), add/sub, cmp, Mul64/Mul128x64/Mul256 (schoolbook, by induction over limb lists), Div256 (total correctness incl. fuel), QuoRem128x64, Uint128.QuoRem (64- and 128-bit divisors, trial quotient within one) total and exact; bitwise ops and casts against Z.land/lor/lxor and value preservation. Uint128.Mul: partial (known finding: w1*w1 never examined). Equality proofs are insensitive to renamed locals, reordered independent statements, a > b written b < a, switch vs if/else, early return vs trailing return, for-post moved into the body; they are sensitive to: the order in which variables used by a loop are declared (argument order of the loop fixpoint), semantically neutral changes of a loop condition or case boundary, new methods (reported in coverage.translator, no theorem).")
+    text="Rocq theorems over an executable line-by-line model of pkg/obifp: every shift count, add/sub/mul/div/cmp of the three widths exact and overflow-exact for all operands (Uint128.Mul: partial, see known finding; Uint128.QuoRem included), constructors Zero/MaxValue/Set64 and the generic ZeroUint/OneUint/From64 of unint.go (MaxValue = 2^w-1 and an upper bound of every value). The model is tied to the code twice on every run: (1) correspondence - the model is evaluated with vm_compute on the same boundary-biased operand cases the real methods ran on (corpus of defect witnesses, coverage-driven cases and the input classes of the seeding notes first, then the random stream; a division by zero must panic); (2) translation - tools/go2coq_obifp.go (go/parser + go/ast) re-translates uint64.go / uint128.go / uint256.go of the current working tree into Gallina (C20/Gen/Translated.v, 84 methods + plain helper functions, none untranslated) and C20/GenProps.v re-proves, for every translated method, T_f = model f on well-formed operands (84 theorems) plus the C20 theorems restated for the translated functions (8 theorems for the widest operation of each kind, 32 corollaries). Every equality proof is `first [ script written against the transcribed shape | shape-independent tactic ]`: a source change that alters what a translated function COMPUTES breaks its theorem (the check then searches the ops of that method first and reports the failing input, or no-failing-input-found naming the theorem); a behaviour-preserving rewrite is re-proved by the shape-independent tactics (measured: the seeded rewrites C20-R2 (all shifts restructured) and C20-R3 (add/sub/cmp family, loops over limb arrays, early returns) are silent; C20-R1 is not: its Uint256.Div is a different algorithm (binary long division), which needs a new loop invariant - reported as no-failing-input-found, as the protocol demands).",
+    note="Trusted: Coq kernel + vm_compute; math/bits primitives modelled by their documented meaning; harness/generators; the translator tools/go2coq_obifp.go (its reading of Go: uint = 64 bits, wraps written out as mod W / wrapi, log.Warnf ignored, log.Panicf = Panic, array index out of range = Panic, range over an array = counting loop over a copy, continue/break/return inside loops, plain functions, bits.Len64, x/c and x%c for constants, parallel assignment; loop fuel from its table: shifts 8, Div 257/257, counting loops bound+1, others 1024) - cross-checked by the unchanged correspondence run on the real code. Hypotheses of the equalities: operands well-formed (limbs in [0,2^64): every Go uint64 is), shift counts 0 <= n < 2^64. Shape-independent tactics (C20/GenTac.v, GenBits.v, GenDiv.v, GenMul.v): g_eq (unfold everything translated, execute constant-bound loops over limb arrays symbolically, split every comparison innermost first, wraps/carries/borrows by lia with div/mod equations, a|b == 0 as conjunction); g_bits (limb-level shift code: equality bit by bit through testbit of << >> | & ^ masks, ranges of the limbs, indices identified by lia); g_shift256 (count = 64k+m, k in 0..3, then symbolic execution and g_bits - proves both the whole-limb-move loop and the index-arithmetic formulation); q_go (composite functions from the equalities of whichever callees they use: Uint128.QuoRem/Div/Mod, top of Uint256.Div); gen_mul (schoolbook multiplications: symbolic execution keeping hi*W+lo = x*y+r+carry per 64x64 step, products eliminated, SPEC closed by lia, equality by uniqueness of the spec). Still shape-specific (a rewrite gives no-failing-input-found): the two loops of Uint256.Div (induction on fuel against div_inner/div_outer), Uint128.Mul beyond case-splitting (its spec is partial: known finding), multiplications that skip rows or take fast paths (gen_mul does not branch on zero limbs), a function whose purity changes (array/loop/panic added to a pure function) except Uint256.Cmp (stated on the res-valued view R_), new methods (reported in coverage.translator, no theorem). Hand-modelled only (no Go source in the three translated files): the pre-repair *_orig functions of the refuted theorems; the generic constructors of unint.go (ZeroUint/OneUint/From64: exercised for the three widths, judged by oracle and model, not translated: generic functions). Not exercised: nothing of the anchored obifp code (tools/anchor_coverage.py: every statement of uint64.go, uint128.go, uint256.go and unint.go is executed by the quick tier); pkg/obikmer/kmermap.go is anchored for its USE of obifp (masks, From64/ZeroUint/OneUint, shifts by 2(k-1) bits up to 254): the operations it composes are the ones checked here, the k-mer logic itself belongs to the k-mer properties.")
 TRUSTED = ["math/bits primitives (Add64, Sub64, Mul64, Div64, LeadingZeros64) are modelled by their documented exact meaning",
-           "the Go-to-Gallina translator tools/go2coq_obifp.go (standard library go/parser + go/ast; own type inference; conventions in the header of C20/Gen/Translated.v) is trusted for the equality theorems of C20/GenProps.v; it is cross-checked on every run by the correspondence of the hand-written model with the real code",
+           "the Go-to-Gallina translator tools/go2coq_obifp.go (standard library go/parser + go/ast; own type inference; conventions in the header of C20/Gen/Translated.v, including range loops over arrays as counting loops over a copy, continue/break/return inside loops, plain helper functions) is trusted for the equality theorems of C20/GenProps.v; it is cross-checked on every run by the correspondence of the hand-written model with the real code",
            "uint is taken to be 64 bits wide (amd64 / arm64)"]
 M64 = (1 << 64) - 1
 OPNAME = dict(shl="OShl", shr="OShr", add="OAdd", sub="OSub", mul="OMul", cmp="OCmp", lt="OLt", le="OLe", gt="OGt",
               ge="OGe", eq="OEq", **{"and": "OAnd", "or": "OOr", "xor": "OXor", "not": "ONot"}, to64="OTo64",
               to128="OTo128", to256="OTo256", iszero="OIsZero", as64="OAs64", lsh64="OLsh64", rsh64="ORsh64",
               add64="OAdd64", mul64="OMul64", quorem="OQuoRem", quorem64="OQuoRem64", div="ODiv", mod="OMod",
-              div64="ODiv64", mod64="OMod64", cmp64="OCmp64")
+              div64="ODiv64", mod64="OMod64", cmp64="OCmp64", zero="OZero", max="OMax", set64="OSet64", zerouint="OZeroU",
+              oneuint="OOneU", from64="OFrom64")
 COMMON = ["shl", "shr", "add", "sub", "mul", "cmp", "lt", "le", "gt", "ge", "eq", "and", "or", "xor", "not",
-          "to64", "to128", "to256", "iszero", "as64"]
+          "to64", "to128", "to256", "iszero", "as64", "zero", "max", "set64", "zerouint", "oneuint", "from64"]
 OPS = {64: COMMON + ["lsh64", "rsh64"],
        128: COMMON + ["add64", "mul64", "quorem", "quorem64", "div", "mod", "div64", "mod64", "cmp64"],
        256: COMMON + ["div"]}
@@ -55,13 +56,20 @@ def gen_cases(ctx, n_random, only=None):
             continue
         # every shift amount 0..w+64 on a few operands (exhaustive over n)
         for n in list(range(0, w + 66)) + [w + 127, w + 128, 511, 512, 1000]:
-            for a in (val([M64] * (w // 64)), gen_value(rng, w)):
+            ops_sweep = [val([M64] * (w // 64)), gen_value(rng, w)]
+            if w > 64:
+                # one limb only / alternating bits / top and bottom bit of every limb (carry words of shifts by 65..127)
+                ops_sweep.append(rng.choice([val([M64] + [0] * (w // 64 - 1)), val([0] * (w // 64 - 1) + [M64]),
+                                             val([0xAAAAAAAAAAAAAAAA] * (w // 64)), val([(1 << 63) | 1] * (w // 64)),
+                                             val([1 << 63] + [0] * (w // 64 - 2) + [1])]))
+            for a in ops_sweep:
                 for op in ("shl", "shr"):
                     if op in ops_w:
-                        cases.append(dict(w=w, op=op, a=a, b=0, n=n))
+                        cases.append(dict(w=w, op=op, a=a, b=0, n=n, cls="shift-sweep"))
         for _ in range(n_random):
             op = rng.choice(ops_w)
             a, b = gen_value(rng, w), gen_value(rng, w)
+            cls = "random"
             if op in ("cmp", "lt", "le", "gt", "ge", "eq", "cmp64", "sub") and rng.random() < 0.3:
                 # equal and nearly equal operands (the last case of every comparison chain; borrow chains of length w)
                 b = a if op != "cmp64" else a & M64
@@ -70,6 +78,30 @@ def gen_cases(ctx, n_random, only=None):
                     b = max(0, min((1 << (64 if op == "cmp64" else w)) - 1, b + rng.choice([-1, 1])))
                 elif k < 0.5 and w > 64 and op != "cmp64":
                     b ^= 1 << (64 * rng.randrange(0, w // 64) + rng.choice([0, 63]))     # differ in exactly one limb
+            if op in ("cmp", "lt", "le", "gt", "ge", "eq") and w > 64 and rng.random() < 0.25:
+                # a higher limb decides one way, a lower limb differs the other way
+                la = [rng.choice(LIMB_BOUNDARY) for _ in range(w // 64)]
+                lb = list(la)
+                hi = rng.randrange(1, w // 64)
+                lo = rng.randrange(0, hi)
+                la[hi], lb[hi] = max(la[hi], 1), max(la[hi], 1) - 1
+                la[lo], lb[lo] = min(la[lo], M64 - 1), M64
+                a, b = val(la), val(lb)
+                if rng.random() < 0.5:
+                    a, b = b, a
+                cls = "cmp-crossing-limbs"
+            if op in ("add", "sub", "mul") and w > 64 and rng.random() < 0.15:
+                # every limb all-ones except one
+                la = [M64] * (w // 64)
+                la[rng.randrange(0, w // 64)] = rng.choice(LIMB_BOUNDARY)
+                a = val(la)
+                cls = "all-ones-but-one-limb"
+            if op in ("cmp64", "add64", "mul64") and rng.random() < 0.3:
+                b = rng.choice([0, 1, M64])
+                cls = "64-bit operand 0/1/max"
+            if op in ("set64", "from64", "zero", "max") and rng.random() < 0.7:
+                a |= rng.choice(LIMB_BOUNDARY[1:]) << (w - 64)       # receiver with a non-zero top limb
+                cls = "constructor on a non-zero receiver"
             if op in ("mul", "mul64") and w > 64 and rng.random() < 0.35:
                 # products that just fit (or just do not): operand sizes complementary, carries through every limb
                 kb = rng.randrange(1, 65) if op == "mul64" else rng.randrange(1, w)
@@ -89,7 +121,7 @@ def gen_cases(ctx, n_random, only=None):
                 a = b * k + rng.choice([0, 0, 1, b - 1])
                 if a >= (1 << w):
                     a = b * 1 + rng.choice([0, 0, b - 1]) if 2 * b - 1 < (1 << w) else b
-            if op in ("add64", "mul64", "quorem64", "div64", "mod64", "cmp64", "lsh64", "rsh64"):
+            if op in ("add64", "mul64", "quorem64", "div64", "mod64", "cmp64", "lsh64", "rsh64", "set64", "from64"):
                 b &= M64
             if op == "sub" and rng.random() < 0.5 and a < b:
                 a, b = b, a
@@ -100,7 +132,7 @@ def gen_cases(ctx, n_random, only=None):
                     b &= (1 << n) - 1
                 if op == "rsh64" and 0 < n < 64:
                     b &= M64 ^ ((1 << (64 - n)) - 1)
-            cases.append(dict(w=w, op=op, a=a, b=b, n=n))
+            cases.append(dict(w=w, op=op, a=a, b=b, n=n, cls=cls))
     return cases
 
 
@@ -121,6 +153,68 @@ CORPUS = [
     dict(w=128, op="quorem", a=3 * ((1 << 100) + 7), b=(1 << 100) + 7, n=0, tag="boundary:quorem128 exact multiple"),
     dict(w=128, op="mod", a=((1 << 127) // ((1 << 64) + 1)) * ((1 << 64) + 1), b=(1 << 64) + 1, n=0, tag="boundary:mod128 exact multiple"),
 ]
+
+
+def _round3_corpus():
+    """Round 3: the anchored code no process executed (constructors, overflow branches of Uint128.Add/Add64, Cmp64 branches,
+    division by zero) and the input classes of the seeding notes."""
+    c = []
+    top = {64: 1 << 64, 128: 1 << 128, 256: 1 << 256}
+    for w in (64, 128, 256):
+        recv = (top[w] - 1) ^ (1 << (w // 2))          # a receiver whose limbs are all non-zero
+        for op in ("zero", "max", "zerouint", "oneuint"):
+            c.append(dict(w=w, op=op, a=recv, b=0, n=0, tag="cover:constructor"))
+        for v in (0, 1, 3, M64, 1 << 63):
+            c.append(dict(w=w, op="set64", a=recv, b=v, n=0, tag="cover:Set64 on a receiver with non-zero high limbs"))
+            c.append(dict(w=w, op="from64", a=0, b=v, n=0, tag="cover:From64"))
+    # Uint128.Add / Add64: overflow branch and the carry into the high limb without overflow
+    c += [dict(w=128, op="add", a=(1 << 128) - 1, b=1, n=0, tag="cover:add128 overflow"),
+          dict(w=128, op="add", a=1 << 127, b=1 << 127, n=0, tag="cover:add128 overflow"),
+          dict(w=128, op="add", a=M64, b=1, n=0, tag="cover:add128 carry into the high limb"),
+          dict(w=128, op="add64", a=(1 << 128) - 1, b=1, n=0, tag="cover:add128_64 overflow"),
+          dict(w=128, op="add64", a=(M64 << 64) | 5, b=M64, n=0, tag="cover:add128_64 overflow"),
+          dict(w=128, op="add64", a=M64, b=M64, n=0, tag="cover:add128_64 carry into the high limb"),
+          dict(w=128, op="add64", a=(M64 - 1) << 64 | M64, b=1, n=0, tag="cover:add128_64 just fits")]
+    # Uint128.Cmp64: every branch, v = 0 / 1 / max
+    for a, v in ((1 << 64, M64), ((1 << 64) | 5, 0), (7, 5), (5, 7), (5, 5), (0, 0), (0, 1), (M64, M64), (M64 - 1, M64), (1 << 127, 0)):
+        c.append(dict(w=128, op="cmp64", a=a, b=v, n=0, tag="cover:cmp128_64"))
+    for v in (0, 1, M64):
+        c.append(dict(w=128, op="mul64", a=(1 << 64) | 3, b=v, n=0, tag="class:64-bit operand 0/1/max"))
+        c.append(dict(w=128, op="add64", a=(1 << 64) | 3, b=v, n=0, tag="class:64-bit operand 0/1/max"))
+    # division by zero never returns a value
+    for w, op in ((128, "quorem"), (128, "quorem64"), (128, "div"), (128, "mod"), (128, "div64"), (128, "mod64"), (256, "div")):
+        for a in (0, 12345, top[w] - 1):
+            c.append(dict(w=w, op=op, a=a, b=0, n=0, tag="cover:division by zero"))
+    # Uint256.Div: the division-by-one shortcut
+    for a in (1, 12345, (1 << 255) + 7, (1 << 256) - 1):
+        c.append(dict(w=256, op="div", a=a, b=1, n=0, tag="cover:div256 by one"))
+    # comparisons: a high limb differs one way, a lower limb the other way
+    for w in (128, 256):
+        k = w // 64
+        for hi in range(1, k):
+            for lo in range(0, hi):
+                a = (5 << (64 * hi))
+                b = (4 << (64 * hi)) | (M64 << (64 * lo))
+                for op in ("cmp", "lt", "le", "gt", "ge", "eq"):
+                    c.append(dict(w=w, op=op, a=a, b=b, n=0, tag="class:cmp crossing limbs"))
+                    c.append(dict(w=w, op=op, a=b, b=a, n=0, tag="class:cmp crossing limbs"))
+    c += [dict(w=128, op="cmp64", a=(4 << 64) | 1, b=M64, n=0, tag="class:cmp crossing limbs")]
+    # Uint128 shifts by counts strictly between 64 and 128 (LeftShift64/RightShift64 carry words; k-mer sizes >= 33)
+    for a in ((1 << 127) | 1, (M64 << 64), M64, 0xAAAAAAAAAAAAAAAA5555555555555555, ((1 << 63) | 1) << 64 | (1 << 63) | 1):
+        for n in (65, 66, 95, 96, 126, 127):
+            c.append(dict(w=128, op="shl", a=a, b=0, n=n, tag="class:shift128 by 65..127"))
+            c.append(dict(w=128, op="shr", a=a, b=0, n=n, tag="class:shift128 by 65..127"))
+    # carries / borrows rippling through every limb; all-ones except one limb
+    c += [dict(w=256, op="sub", a=1 << 192, b=1, n=0, tag="class:ripple"), dict(w=256, op="add", a=(1 << 192) - 1, b=1, n=0, tag="class:ripple"),
+          dict(w=256, op="add", a=(1 << 256) - 1, b=1, n=0, tag="class:ripple"), dict(w=256, op="sub", a=0, b=1, n=0, tag="class:ripple"),
+          dict(w=128, op="sub", a=1 << 64, b=1, n=0, tag="class:ripple"), dict(w=128, op="add", a=(1 << 64) - 1, b=1, n=0, tag="class:ripple"),
+          dict(w=256, op="mul", a=((1 << 256) - 1) ^ (M64 << 64), b=1, n=0, tag="class:all-ones but one limb"),
+          dict(w=256, op="add", a=((1 << 256) - 1) ^ (M64 << 128), b=1 << 128, n=0, tag="class:all-ones but one limb"),
+          dict(w=256, op="sub", a=((1 << 256) - 1) ^ (M64 << 192), b=(1 << 192) - 1, n=0, tag="class:all-ones but one limb")]
+    return c
+
+
+CORPUS += _round3_corpus()
 
 
 def to_vh(c):
@@ -159,12 +253,22 @@ def expected(c):
         return ("val", a - b) if a >= b else ("panic",)
     if op in ("mul", "mul64"):
         return ("val", a * b) if a * b < top else ("panic",)
+    # a division by zero never returns a value: log.Panicf("division by zero") / the run-time panic of bits.Div64
     if op in ("quorem", "quorem64"):
-        return ("val2", a // b, a % b) if b else None
+        return ("val2", a // b, a % b) if b else ("panic",)
     if op in ("div", "div64"):
-        return ("val", a // b) if b else None
+        return ("val", a // b) if b else ("panic",)
     if op in ("mod", "mod64"):
-        return ("val", a % b) if b else None
+        return ("val", a % b) if b else ("panic",)
+    # constructors (how kmermap.go builds every k-mer and mask): exact values whatever the receiver held
+    if op in ("zero", "zerouint"):
+        return ("val", 0)
+    if op == "max":
+        return ("val", top - 1)
+    if op == "oneuint":
+        return ("val", 1)
+    if op in ("set64", "from64"):
+        return ("val", b & M64)
     if op in ("cmp", "cmp64"):
         return ("int", (a > b) - (a < b))
     if op in ("lt", "le", "gt", "ge", "eq"):
@@ -194,6 +298,8 @@ def expected(c):
 
 
 def agrees(exp, o):
+    if o["kind"].startswith("unknown-op"):
+        return False           # the harness does not know the operation: never a silent pass
     if exp is None:
         return True
     if o["kind"] == "crash":
@@ -321,6 +427,11 @@ def run(ctx, broken):
         k = "%d/%s/%s" % (c["w"], c["op"], o["kind"])
         dist[k] = dist.get(k, 0) + 1
     ctx.cov["distribution"] = dist
+    classes = {}
+    for c in cases:
+        k = c.get("tag") or ("stream:" + c.get("cls", "random"))
+        classes[k] = classes.get(k, 0) + 1
+    ctx.cov["input_classes"] = classes
     ctx.samples = [dict(case=dict(c, a=hex(c["a"]), b=hex(c["b"])), implementation=o) for c, o in list(zip(cases, obs))[:3] + list(zip(cases, obs))[-3:]]
     ctx.cov["model_vs_impl_mismatches"] = len(mism)
     if (mism or thm) and not ctx.violations:
